@@ -288,7 +288,7 @@ pub fn run(ctx: &mut Ctx) {
                 or no_deps with >=2 params; distinct = distinct program text"
         .into();
     ctx.assumptions.push("parameter types stay inside {i32, u8, &str, bool}: what `matching!` patterns can express literally; a compile failure of these programs is reported as a violation of (a) only when it names the mock API path".into());
-    let n = ctx.n(250, 4000) as usize;
+    let n = ctx.n(800, 8000) as usize;
     let tapes = crate::drive::gen_tapes(ctx.seed, 1100, n, TAPE_LEN);
     let cases: Vec<Case> = tapes.iter().map(|tp| gen_case(&mut Tape::new(tp))).collect();
     let mut batch = Batch::new("c11", Opts { feature_unimock: true, members: 16, ..Default::default() });
